@@ -3,6 +3,7 @@ import OVM.Refine.DeleteFrames
 import OVM.Refine.Len
 import OVM.Refine.CacheDelete
 import OVM.Refine.CacheSwap
+import OVM.Refine.LogicalRead
 /-
   C02 — deletion removes exactly the entity's upward closure; survivors are unchanged.
   Proved here:
@@ -204,5 +205,191 @@ example :
     k.fast = true ∧ k.cacheInvB = true ∧ (k.deleteCell 0).cells = [] ∧
     (k.deleteCell 0).incCell = [none, none, none, none, none, none, none, none] ∧
     (k.deleteCell 0).cacheInvB = true := by decide
+
+end OVM.Props.C02
+
+/-! ======================= appended by builder L1 (logical mesh, C02) ======================= -/
+namespace OVM.Props.C02
+open OVM OVM.Kernel OVM.Kernel.Logical
+
+/-! ------------------------------------------------------------------------------------------
+    The property itself (builder L1; OVM/Refine/Logical*.lean).  `LogMinus k k' ρ S` = "the logical mesh of `k'` is the
+    logical mesh of `k` minus the entities in `S`, renumbered by `ρ`": per kind `ρ` is a bijection from the live slots
+    of `k` outside `S` onto the live slots of `k'`; every survivor's definition, read in `k'` at its new handle, is its
+    old definition with every handle renamed by `ρ`; every property column of every kind (halfedge / halfface columns:
+    both sides) holds at the new handle what it held at the old one (`Carried`, OVM/Refine/LogicalRead.lean, is the
+    same statement in elementary terms: `survivors_keep_definitions_and_values`).  `cloC/cloF/cloE/cloV` are the upward
+    closures computed from the definitions of the live entities alone — the Prop form of the judge's oracle
+    (`Judge.Named.closure*`, `Named.minus`), which names entities by identity-column tokens; here the naming is the
+    slot bijection `ρ`, and identity columns follow it like every other column (C03: `values_follow_tokens_history`).
+    ------------------------------------------------------------------------------------------ -/
+
+/-- **Deletion removes exactly the upward closure, in all four deletion modes and every bottom-up configuration.**
+    On every state satisfying the reachability invariant `GInv` (C01: `reach_inv`) and for every live argument,
+    `delete_cell / delete_face / delete_edge / delete_vertex` yield a state whose logical mesh is the old one minus the
+    upward closure of the argument (`LogMinus`), under a renumbering `ρ` that is the identity in deferred mode (entities
+    are flagged, nothing moves) and order preserving in immediate index-shifting mode (`ModeShape`; in immediate
+    swap-with-last mode it is a composition of "the last slot takes the victim's handle" relabelings — for
+    `delete_cell` exactly `relabelId c (n_cells-1)`, `deleteCell_fast`).  Nothing else is removed, nothing in the
+    closure survives (`KindOK.into / onto`), and no survivor refers to a removed entity (`RefsSurvive`). -/
+theorem deletion_removes_exactly_the_closure (k : Kernel) (hi : Global.GInv k) :
+    (∀ c, k.liveC c = true → ∃ ρ, ModeShape k ρ ∧ LogMinus k (k.deleteCell c) ρ (cloC c) ∧ RefsSurvive k (cloC c)) ∧
+    (∀ f, k.liveF f = true → ∃ ρ, ModeShape k ρ ∧ LogMinus k (k.deleteFace f) ρ (cloF k f) ∧ RefsSurvive k (cloF k f)) ∧
+    (∀ e, k.liveE e = true → ∃ ρ, ModeShape k ρ ∧ LogMinus k (k.deleteEdge e) ρ (cloE k e) ∧ RefsSurvive k (cloE k e)) ∧
+    (∀ v, k.liveV v = true → ∃ ρ, ModeShape k ρ ∧ LogMinus k (k.deleteVertex v) ρ (cloV k v) ∧ RefsSurvive k (cloV k v)) := by
+  refine ⟨fun c hc => ?_, fun f hf => ?_, fun e he => ?_, fun v hv => ?_⟩
+  · obtain ⟨ρ, m, s⟩ := deleteCell_logical hi (liveC_iff.mp hc).1
+    exact ⟨ρ, m, s, refs_cloC hi.wf hi.closed c⟩
+  · obtain ⟨ρ, m, s⟩ := deleteFace_logical hi hf
+    exact ⟨ρ, m, s, refs_cloF hi.wf hi.closed f⟩
+  · obtain ⟨ρ, m, s⟩ := deleteEdge_logical hi he
+    exact ⟨ρ, m, s, refs_cloE hi.wf hi.closed e⟩
+  · obtain ⟨ρ, m, s⟩ := deleteVertex_logical hi (liveV_lt hv)
+    exact ⟨ρ, m, s, refs_cloV hi.wf hi.closed v⟩
+
+/-- **Survivors keep their definitions and their property values** — the same fact in elementary terms (`Carried`):
+    after any of the four deletions, in any mode, an entity is live iff it is the image `ρ x` of a live entity `x`
+    outside the closure; distinct survivors get distinct handles; `edge(ρe e) = (ρv from, ρv to)`, the halfedges of
+    `face(ρf f)` are those of `f` renamed (same side), likewise the halffaces of cells; and every vertex / edge /
+    halfedge / face / halfface / cell property column keeps key and default and holds at `ρ x` what it held at `x`
+    (this is C03's transport with the SAME renumbering that renames the definitions); mesh properties untouched. -/
+theorem survivors_keep_definitions_and_values (k : Kernel) (hi : Global.GInv k) :
+    (∀ c, k.liveC c = true → ∃ ρ, Carried k (k.deleteCell c) ρ (cloC c)) ∧
+    (∀ f, k.liveF f = true → ∃ ρ, Carried k (k.deleteFace f) ρ (cloF k f)) ∧
+    (∀ e, k.liveE e = true → ∃ ρ, Carried k (k.deleteEdge e) ρ (cloE k e)) ∧
+    (∀ v, k.liveV v = true → ∃ ρ, Carried k (k.deleteVertex v) ρ (cloV k v)) := by
+  obtain ⟨a, b, c, d⟩ := deletion_removes_exactly_the_closure k hi
+  exact ⟨fun x hx => (a x hx).imp fun _ h => carried_of_logMinus h.2.1,
+    fun x hx => (b x hx).imp fun _ h => carried_of_logMinus h.2.1,
+    fun x hx => (c x hx).imp fun _ h => carried_of_logMinus h.2.1,
+    fun x hx => (d x hx).imp fun _ h => carried_of_logMinus h.2.1⟩
+
+/-- **Deferred mode in handle terms**: nothing is renumbered and no array changes its length; afterwards a slot is
+    not flagged iff it was not flagged before and is not in the closure (stated for `delete_vertex`, the deepest
+    closure; `ρ = id` in `deletion_removes_exactly_the_closure` gives the same for the other three). -/
+theorem deferred_deletion_flags_exactly_the_closure (k : Kernel) (hi : Global.GInv k) (hd : k.deferred = true) (v : Nat)
+    (hv : v < k.nV) :
+    let k' := k.deleteVertex v
+    (k'.nV = k.nV ∧ k'.nE = k.nE ∧ k'.nF = k.nF ∧ k'.nC = k.nC) ∧
+    (∀ x, k'.liveV x = true ↔ (k.liveV x = true ∧ x ≠ v)) ∧
+    (∀ x, k'.liveE x = true ↔ (k.liveE x = true ∧ ¬ (cloV k v).e x)) ∧
+    (∀ x, k'.liveF x = true ↔ (k.liveF x = true ∧ ¬ (cloV k v).f x)) ∧
+    (∀ x, k'.liveC x = true ↔ (k.liveC x = true ∧ ¬ (cloV k v).c x)) ∧
+    (∀ x, k'.liveE x = true → k'.edgeAt x = k.edgeAt x) ∧ (∀ x, k'.liveF x = true → k'.faceAt x = k.faceAt x) ∧
+    (∀ x, k'.liveC x = true → k'.cellAt x = k.cellAt x) := by
+  have s := carried_of_logMinus (deleteVertex_def hi.wf hi.one hd hv)
+  have hs := (cnt_delete_def k v hd).2.2.2.1
+  unfold Sizes at hs
+  simp only [Prod.mk.injEq] at hs
+  have lv : ∀ x, (k.deleteVertex v).liveV x = true ↔ (k.liveV x = true ∧ x ≠ v) := by
+    intro x; rw [s.liveV x]
+    constructor
+    · rintro ⟨y, a, b, rfl⟩; exact ⟨a, b⟩
+    · rintro ⟨a, b⟩; exact ⟨x, a, b, rfl⟩
+  have le : ∀ x, (k.deleteVertex v).liveE x = true ↔ (k.liveE x = true ∧ ¬ (cloV k v).e x) := by
+    intro x; rw [s.liveE x]
+    constructor
+    · rintro ⟨y, a, b, rfl⟩; exact ⟨a, b⟩
+    · rintro ⟨a, b⟩; exact ⟨x, a, b, rfl⟩
+  have lf : ∀ x, (k.deleteVertex v).liveF x = true ↔ (k.liveF x = true ∧ ¬ (cloV k v).f x) := by
+    intro x; rw [s.liveF x]
+    constructor
+    · rintro ⟨y, a, b, rfl⟩; exact ⟨a, b⟩
+    · rintro ⟨a, b⟩; exact ⟨x, a, b, rfl⟩
+  have lc : ∀ x, (k.deleteVertex v).liveC x = true ↔ (k.liveC x = true ∧ ¬ (cloV k v).c x) := by
+    intro x; rw [s.liveC x]
+    constructor
+    · rintro ⟨y, a, b, rfl⟩; exact ⟨a, b⟩
+    · rintro ⟨a, b⟩; exact ⟨x, a, b, rfl⟩
+  refine ⟨⟨hs.1, hs.2.1, hs.2.2.1, hs.2.2.2⟩, lv, le, lf, lc, ?_, ?_, ?_⟩
+  · intro x hx; have := s.edge x ((le x).mp hx).1 ((le x).mp hx).2; simpa [Ren.id] using this
+  · intro x hx
+    have := s.face x ((lf x).mp hx).1 ((lf x).mp hx).2
+    have e : (fun h : Nat => 2 * Ren.id.e (h / 2) + h % 2) = id := by funext h; simp [Ren.id]; omega
+    rw [e, List.map_id] at this; exact this
+  · intro x hx
+    have := s.cell x ((lc x).mp hx).1 ((lc x).mp hx).2
+    have e : (fun h : Nat => 2 * Ren.id.f (h / 2) + h % 2) = id := by funext h; simp [Ren.id]; omega
+    rw [e, List.map_id] at this; exact this
+
+/-- **Counts, logical counts, `needs_garbage_collection`, genus describe exactly the surviving set**, all four modes:
+    with `Lv Le Lf Lc` the closure lists the deletion works with (duplicate-free, and exactly the live members of the
+    definitional closure: `Lists`), the number of live entities of every kind and `n_logical_*` drop by exactly the
+    lengths of these lists; `needs_garbage_collection` becomes true in deferred mode and is unchanged in immediate
+    mode; `genus()` is the stated function of the logical counts in every state (`genus_formula`). -/
+theorem counters_describe_the_surviving_set (k : Kernel) (hi : Global.GInv k) :
+    (∀ c, k.liveC c = true → Lists k (cloC c) [] [] [] [c] ∧ CountsOK k (k.deleteCell c) [] [] [] [c]) ∧
+    (∀ f, k.liveF f = true → Lists k (cloF k f) [] [] [f] (k.incidentCells [f]) ∧
+      CountsOK k (k.deleteFace f) [] [] [f] (k.incidentCells [f])) ∧
+    (∀ e, k.liveE e = true → Lists k (cloE k e) [] [e] (k.incidentFaces [e]) (k.incidentCells (k.incidentFaces [e])) ∧
+      CountsOK k (k.deleteEdge e) [] [e] (k.incidentFaces [e]) (k.incidentCells (k.incidentFaces [e]))) ∧
+    (∀ v, k.liveV v = true →
+      Lists k (cloV k v) [v] (k.incidentEdges [v]) (k.incidentFaces (k.incidentEdges [v]))
+        (k.incidentCells (k.incidentFaces (k.incidentEdges [v]))) ∧
+      CountsOK k (k.deleteVertex v) [v] (k.incidentEdges [v]) (k.incidentFaces (k.incidentEdges [v]))
+        (k.incidentCells (k.incidentFaces (k.incidentEdges [v])))) ∧
+    (∀ k : Kernel, k.genus = (let g : Int := 1 - ((k.nLogV : Int) - k.nLogE + k.nLogF - k.nLogC);
+      if g.tmod 2 = 0 then g.tdiv 2 else -1)) :=
+  ⟨fun _ h => deleteCell_counters hi h, fun _ h => deleteFace_counters hi h, fun _ h => deleteEdge_counters hi h,
+   fun _ h => deleteVertex_counters hi h, genus_formula⟩
+
+/-- **the quantifier of the property**: after every history of valid calls from the empty mesh — construction, `set_*`,
+    deletions in all four modes, index swaps, `collect_garbage`, mode and incidence toggles, `clear` (`Global.HistoryOK`:
+    handles in range, constituents not deleted; C01 `reach_inv`) — the next deletion of a live entity removes exactly its
+    upward closure, survivors keep definitions and values, and the counters describe the surviving set -/
+theorem deletion_on_reachable_states (ops : List Op) (h : Global.HistoryOK {} ops) :
+    Global.GInv (({} : Kernel).run ops) ∧
+    (∀ v, (({} : Kernel).run ops).liveV v = true →
+      (∃ ρ, ModeShape (({} : Kernel).run ops) ρ ∧
+        LogMinus (({} : Kernel).run ops) ((({} : Kernel).run ops).deleteVertex v) ρ (cloV (({} : Kernel).run ops) v) ∧
+        Carried (({} : Kernel).run ops) ((({} : Kernel).run ops).deleteVertex v) ρ (cloV (({} : Kernel).run ops) v)) ∧
+      CountsOK (({} : Kernel).run ops) ((({} : Kernel).run ops).deleteVertex v) [v] ((({} : Kernel).run ops).incidentEdges [v])
+        ((({} : Kernel).run ops).incidentFaces ((({} : Kernel).run ops).incidentEdges [v]))
+        ((({} : Kernel).run ops).incidentCells ((({} : Kernel).run ops).incidentFaces ((({} : Kernel).run ops).incidentEdges [v])))) := by
+  have g := Global.ginv_reachable ops h
+  refine ⟨g, fun v hv => ?_⟩
+  obtain ⟨ρ, m, s, _⟩ := (deletion_removes_exactly_the_closure _ g).2.2.2 v hv
+  exact ⟨⟨ρ, m, s, carried_of_logMinus s⟩, ((counters_describe_the_surviving_set _ g).2.2.2.1 v hv).2⟩
+
+/-! non-vacuity -/
+
+set_option maxRecDepth 8000 in
+/-- deferred mode (the tetrahedron, all caches on): the hypotheses hold; the closure of vertex 0 is the vertex, its three
+    edges, the three faces on them and the cell; `delete_vertex(0)` flags exactly these (TEST by evaluation next to the
+    theorem's conclusion), `n_logical_*` = 3, 3, 1, 0 and `needs_garbage_collection` holds -/
+example : Global.GInv tetK ∧ tetK.deferred = true ∧ tetK.liveV 0 = true ∧
+    tetK.incidentEdges [0] = [0, 2, 3] ∧ tetK.incidentFaces (tetK.incidentEdges [0]) = [0, 1, 3] ∧
+    tetK.incidentCells (tetK.incidentFaces (tetK.incidentEdges [0])) = [0] ∧
+    (∃ ρ, ModeShape tetK ρ ∧ LogMinus tetK (tetK.deleteVertex 0) ρ (cloV tetK 0)) ∧
+    (tetK.deleteVertex 0).nLogV = 3 ∧ (tetK.deleteVertex 0).nLogE = tetK.nLogE - 3 ∧ (tetK.deleteVertex 0).nLogE = 3 ∧
+    (tetK.deleteVertex 0).nLogF = 1 ∧ (tetK.deleteVertex 0).nLogC = 0 ∧ (tetK.deleteVertex 0).needsGC = true ∧
+    (tetK.deleteVertex 0).eDel = [true, false, true, true, false, false] := by
+  obtain ⟨ρ, m, s, _⟩ := (deletion_removes_exactly_the_closure tetK ginv_tetK).2.2.2 0 (by decide)
+  have c := ((counters_describe_the_surviving_set tetK ginv_tetK).2.2.2.1 0 (by decide)).2
+  exact ⟨ginv_tetK, rfl, by decide, by decide, by decide, by decide, ⟨ρ, m, s⟩, by decide, c.2.1.2.1, by decide, by decide,
+    by decide, c.2.2.1 rfl, by decide⟩
+
+set_option maxRecDepth 8000 in
+/-- immediate index-shifting mode: `delete_edge(1)` on the tetrahedron removes the edge, its two faces and the cell;
+    the four surviving-count equations of the theorem, and the renumbered survivors by evaluation (TEST) -/
+example : Global.GInv Shift.tetImm ∧ Shift.tetImm.deferred = false ∧ Shift.tetImm.fast = false ∧ Shift.tetImm.liveE 1 = true ∧
+    Shift.tetImm.incidentFaces [1] = [0, 2] ∧ Shift.tetImm.incidentCells (Shift.tetImm.incidentFaces [1]) = [0] ∧
+    (∃ ρ, ModeShape Shift.tetImm ρ ∧ LogMinus Shift.tetImm (Shift.tetImm.deleteEdge 1) ρ (cloE Shift.tetImm 1)) ∧
+    (Shift.tetImm.deleteEdge 1).nLogE = Shift.tetImm.nLogE - 1 ∧ (Shift.tetImm.deleteEdge 1).nLogF = Shift.tetImm.nLogF - 2 ∧
+    (Shift.tetImm.deleteEdge 1).edges = [(0, 1), (2, 0), (0, 3), (3, 1), (3, 2)] ∧
+    (Shift.tetImm.deleteEdge 1).faces = [[4, 6, 1], [3, 9, 5]] ∧ (Shift.tetImm.deleteEdge 1).needsGC = false := by
+  have g : Global.GInv Shift.tetImm := Global.ginv_of_shiftImmInv Shift.immInv_tetImm (by unfold NoFlag; decide)
+  obtain ⟨ρ, m, s, _⟩ := (deletion_removes_exactly_the_closure _ g).2.2.1 1 (by decide)
+  have c := ((counters_describe_the_surviving_set _ g).2.2.1 1 (by decide)).2
+  exact ⟨g, rfl, rfl, by decide, by decide, by decide, ⟨ρ, m, s⟩, c.2.1.2.1, c.2.1.2.2.1, by decide, by decide, by decide⟩
+
+set_option maxRecDepth 8000 in
+/-- immediate swap-with-last mode: `delete_face(0)` on the tetrahedron; the last face takes handle 0 -/
+example : Global.GInv Kernel.tetImm ∧ Kernel.tetImm.deferred = false ∧ Kernel.tetImm.fast = true ∧
+    (∃ ρ, ModeShape Kernel.tetImm ρ ∧ LogMinus Kernel.tetImm (Kernel.tetImm.deleteFace 0) ρ (cloF Kernel.tetImm 0)) ∧
+    (Kernel.tetImm.deleteFace 0).faces = [[5, 11, 7], [6, 8, 1], [9, 10, 3]] ∧ (Kernel.tetImm.deleteFace 0).cells = [] := by
+  have g : Global.GInv Kernel.tetImm := Global.ginv_of_immInv immInv_tetImm (by unfold NoFlag; decide)
+  obtain ⟨ρ, m, s, _⟩ := (deletion_removes_exactly_the_closure _ g).2.1 0 (by decide)
+  exact ⟨g, rfl, rfl, ⟨ρ, m, s⟩, by decide, by decide⟩
 
 end OVM.Props.C02
